@@ -66,6 +66,7 @@ import Sdmmc.Props.C17GenLfn
 import Sdmmc.Props.C06GenMgr
 import Sdmmc.Props.C03GenMgr
 import Sdmmc.Props.C15GenM2
+import Sdmmc.Props.C15GenVol
 
 namespace Sdmmc.Props.Index
 
@@ -273,6 +274,8 @@ example := @C15GenM2.info_parse_eq
 example := @C15GenM2.free_count_eq
 example := @C15GenM2.next_free_eq
 example := @C15GenM2.parse_volume_info_binding
+example := @C15GenVol.parse_volume_eq
+example := @C15GenVol.parseVolume_binding
 
 /-! ### fat/ondiskdirentry.rs -/
 -- `OnDiskDirEntry::{is_end, is_valid, is_lfn, matches, lfn_contents}`
